@@ -166,6 +166,8 @@ void observe(const polyseed_data *s, unsigned coin, obs *o) {
         memcpy(o->kdf_salt, E.kdf.salt, 32); o->kdf_saltlen = E.kdf.saltlen;
         o->kdf_iters = E.kdf.iters; o->kdf_keylen = E.kdf.keylen;
     } else o->kdf_pwlen = (size_t)-1;
+    { polyseed_str ph; size_t n = polyseed_encode(s, polyseed_get_lang(0), (polyseed_coin)coin, ph); uint64_t h = n; for (size_t i = 0; i < n && i < PSTR; i++) h = mix64(h, (uint8_t)ph[i]); o->phrase_en = h;
+      n = polyseed_encode(s, polyseed_get_lang(2), (polyseed_coin)coin, ph); h = n; for (size_t i = 0; i < n && i < PSTR; i++) h = mix64(h, (uint8_t)ph[i]); o->phrase_ko = h; }
 }
 int obs_eq(const obs *a, const obs *b) { return !memcmp(a, b, sizeof *a); }
 int obs_matches_ref(const obs *o, const rseed *r, unsigned coin, char *why, size_t wl) {
@@ -179,6 +181,8 @@ int obs_matches_ref(const obs *o, const rseed *r, unsigned coin, char *why, size
     if (o->kdf_pwlen != 32 || o->kdf_saltlen != 32 || o->kdf_iters != 10000 || o->kdf_keylen != 32) BAD("kdf lengths pw=%zu salt=%zu iters=%llu keylen=%zu", o->kdf_pwlen, o->kdf_saltlen, (unsigned long long)o->kdf_iters, o->kdf_keylen);
     if (memcmp(o->kdf_pw, pw, 32)) BAD("kdf password differs");
     if (memcmp(o->kdf_salt, salt, 32)) BAD("kdf salt differs");
+    { char ph[2048]; size_t n = ref_phrase(r, 0, coin, ph, 0); uint64_t h = n; for (size_t i = 0; i < n; i++) h = mix64(h, (uint8_t)ph[i]); if (h != o->phrase_en) BAD("English phrase for coin %u differs from the reference", coin);
+      n = ref_phrase(r, 2, coin, ph, 0); h = n; for (size_t i = 0; i < n; i++) h = mix64(h, (uint8_t)ph[i]); if (h != o->phrase_ko) BAD("Korean phrase for coin %u differs from the reference", coin); }
 #undef BAD
     return 1;
 }
